@@ -210,6 +210,35 @@ func c11Case(c *mc.Ctx, cfg ref.Cfg, it ref.Item, v ref.V, vs string, undoc stri
 			c.Violation(pre+"decoded-value-changed-after-input-overwritten", fmt.Sprintf("decoded %s, after overwriting the input %s", decoded, after))
 			return
 		}
+		// the alignment dimension: the same input at each of the 8 offsets of an aligned backing array
+		// (a decoder that views the input in place can only do so where the payload happens to be
+		// aligned for the element type), with no spare capacity this time
+		if hasPayload(t, v) {
+			c.Dim("alignment")
+			for off := 0; off < 8; off++ {
+				backing := make([]byte, off+len(data)+8)
+				in2 := backing[off : off+len(data) : off+len(data)]
+				copy(in2, data)
+				d := fresh(t)
+				if err := p.Unmarshal(in2, d.Interface()); err != nil {
+					c.Violation(pre+"decode-depends-on-input-alignment", fmt.Sprintf("input at offset %d of its backing array: %v", off, err))
+					return
+				}
+				var r2 []memRange
+				reach(d.Elem(), "", &r2)
+				if w := overlaps(r2, backing); w != "" {
+					c.Violation(pre+"decoded-value-shares-memory-with-input"+w, fmt.Sprintf("input at offset %d of its backing array: %s of the decoded value lies inside it", off, w))
+					return
+				}
+				for i := range backing {
+					backing[i] ^= 0xff
+				}
+				if s := ref.Str(t, ref.FromReflect(t, d.Elem())); s != decoded {
+					c.Violation(pre+"decode-depends-on-input-alignment", fmt.Sprintf("input at offset %d of its backing array decodes to %s, at offset 0 to %s", off, s, decoded))
+					return
+				}
+			}
+		}
 		// a second decode through the same instance (interning, pools) after the overwrite
 		dst2 := fresh(t)
 		if err := p.Unmarshal(data, dst2.Interface()); err == nil {
